@@ -42,7 +42,10 @@ def run_multi_case(case):
         if g["kind"] == "cat":
             kind = g.get("label_kind", "float" if min(g["codes"]) < 0 else "int")
             b = redcase.label_array(g["codes"], kind)
-            exps.append(np.array([redcase.LABELS[kind][t] for t in g["req"]], dtype=object if kind == "str" else None))
+            if g.get("found"):      # an in-memory grouper without expected_groups next to a chunked one
+                exps.append(None)
+            else:
+                exps.append(np.array([redcase.LABELS[kind][t] for t in g["req"]], dtype=object if kind == "str" else None))
             isbin.append(False)
         else:
             b = np.array([to_float(v) for v in g["x"]], dtype=float)
@@ -67,8 +70,8 @@ def run_multi_case(case):
             ch = tuple(tuple(c) for c in case["chunks"])
             arr = da.from_array(array, chunks=ch)
             bys2 = []
-            for b in bys:
-                if case.get("by_dask"):
+            for b, g in zip(bys, case["groupers"]):
+                if case.get("by_dask") is True or (case.get("by_dask") == "mixed" and not g.get("found")):
                     bch = tuple(ch[ax] if b.shape[ax] != 1 else (1,) for ax in range(array.ndim))
                     bys2.append(da.from_array(b, chunks=bch))
                 else:
@@ -134,6 +137,10 @@ def build(n, vsel, kinds, gsel, func, fillsel, mode, engine):
         return c
     c["method"] = method
     c["by_dask"] = by_dask
+    if by_dask == "mixed":
+        if len(groupers) < 2 or groupers[-1]["kind"] != "cat" or groupers[-1].get("bcast"):
+            return None
+        groupers[-1]["found"] = True
     if by_dask and method == "cohorts":
         return None
     return c
@@ -148,7 +155,8 @@ def to_line(rec, rid):
             codes = g["codes"]
             if g.get("bcast"):
                 codes = codes * (n // len(codes))
-            g2.update(codes=codes, req=sorted(g["req"]))   # sort=True (default): slots in ascending label order (C16)
+            # sort=True (default): slots in ascending label order (C16); without expected_groups: the labels present
+            g2.update(codes=codes, req=sorted({c for c in codes if c >= 0}) if g.get("found") else sorted(g["req"]))
         else:
             x = g["x"]
             if g.get("bcast"):
@@ -164,7 +172,7 @@ def to_line(rec, rid):
 def run(ctx):
     models.factorize(ctx)
     kindsets = [("cat",), ("binR",), ("binL",), ("cat", "cat"), ("cat", "binR"), ("binL", "cat"), ("binR", "binL"), ("cat", "cat", "binR"), ("binL", "cat", "cat")]
-    modes = ["eager", ("1d", None, False), ("1d", "map-reduce", False), ("1d", "map-reduce", True), ("1d", "cohorts", False), ("2d", "eager2d", False),
+    modes = ["eager", ("1d", None, False), ("1d", "map-reduce", False), ("1d", "map-reduce", True), ("1d", "map-reduce", "mixed"), ("1d", None, "mixed"), ("1d", "cohorts", False), ("2d", "eager2d", False),
              ("2d", "map-reduce", False), ("2d", None, True)]
     sp = gen.Space("multi", {"n": [4, 6], "vsel": range(6), "kinds": kindsets, "gsel": range(12), "func": FUNCS, "fillsel": range(3), "mode": modes,
                              "engine": [None, "numpy", "flox"]}, build)
